@@ -55,8 +55,8 @@ class _Continue(Exception):
 class Obj:
     """A record with attributes (a token, `self`, ...)."""
 
-    def __init__(self, name, **attrs):
-        self.__dict__['_name'] = name
+    def __init__(self, _obj_label, **attrs):
+        self.__dict__['_name'] = _obj_label
         self.__dict__['attrs'] = dict(attrs)
 
     def __repr__(self):
@@ -75,6 +75,7 @@ class Thunk:
 class Closure:
     def __init__(self, node, env, interp):
         self.node, self.env, self.interp = node, env, interp
+        self.attrs = {}
 
 
 SAFE_STR = {'startswith', 'endswith', 'strip', 'lstrip', 'rstrip', 'lower',
@@ -84,7 +85,8 @@ BUILTINS = {'len': len, 'bool': bool, 'tuple': tuple, 'list': list,
             'set': set, 'frozenset': frozenset, 'dict': dict,
             'enumerate': enumerate, 'zip': zip, 'sorted': sorted,
             'iter': iter, 'next': None, 'int': int, 'float': float,
-            'type': None, 'getattr': None, 'callable': None}
+            'type': None, 'getattr': None, 'callable': None,
+            'setattr': None, 'hasattr': None, 'super': None}
 
 
 # library functions that are pure functions of concrete text / numbers
@@ -269,7 +271,7 @@ class Interp:
                 self.assign(x, y, env)
         elif isinstance(t, ast.Attribute):
             base = self.ev(t.value, env)
-            if not isinstance(base, Obj):
+            if not isinstance(base, (Obj, Closure)):
                 raise Unsupported('attribute store')
             base.attrs[t.attr] = v
         elif isinstance(t, ast.Subscript):
@@ -496,6 +498,18 @@ class Interp:
                 if isinstance(r[0], _Raise):
                     raise r[0]
                 return r[0]
+            if name in ('setattr', 'getattr', 'hasattr') and args and \
+                    isinstance(args[0], Obj) and isinstance(args[1], str):
+                if name == 'setattr' and len(args) == 3:
+                    args[0].attrs[args[1]] = args[2]
+                    return None
+                if name == 'hasattr':
+                    return args[1] in args[0].attrs
+                if args[1] in args[0].attrs:
+                    return args[0].attrs[args[1]]
+                if len(args) == 3:
+                    return args[2]
+                raise _Raise('AttributeError')
             if name == 'isinstance':
                 if self.isinstance_oracle is None:
                     raise Unsupported('isinstance')
@@ -545,6 +559,10 @@ class Interp:
             return self.apply(f.node, f.env, args, kwargs)
         if isinstance(f, tuple) and len(f) == 3 and f[0] == 'bound':
             m, recv = f[1], f[2]
+            r = self.oracle(m.key, args, kwargs)
+            if r is not None:
+                self.trace.append((m.key, args))
+                return r[0]
             sub = Interp(self.repo, m.module, self.oracle,
                          self.isinstance_oracle, self.max_steps)
             sub.steps, sub.trace = self.steps, self.trace
